@@ -392,7 +392,7 @@ Definition eval_rbin (o : binop) (c : const) (g : field) : res field :=
       if const_np c then ufunc2 (alg a) g (VC c) (VF g) else
       match a with
       | Add => apply_op fadd g (VC c)                                   (* self + other *)
-      | Sub => do ng <- same_shape fopp g; apply_op fadd ng (VC c)      (* -self + other *)
+      | Sub => apply_op (fun x y => fsub y x) g (VC c)                  (* lambda x, y: y - x *)
       | Mul => apply_op fmul g (VC c)                                   (* self * other *)
       | Div => apply_op (fun x y => fdiv y x) g (VC c)                  (* lambda x, y: y / x *)
       | Pow => Err TypeE                                                (* no __rpow__ *)
